@@ -20,7 +20,7 @@ CLAIMED = {
             "Generated argument tuples over the stated ratio domain with exact and near degeneracies, zeros, physical "
             "quark-mass combinations and thresholds; values are compared with a 100-digit evaluation of the defining "
             "expressions (literal difference quotients, derivative limits), plus permutation/homogeneity relations.",
-            "mpmath reference validated by self-test; one open known finding (Kaellen zero of the charged functions)",
+            "mpmath reference validated by self-test; two open known findings (Kaellen zero of the charged functions outside the analytic-limit window; small-u expansion of Phi)",
             "4/C02"),
     "C07": ("property-based testing (Hypothesis): metamorphic scaling ladders with an explicit decoupling envelope",
             "Generated base points are scaled by k = 1..64; the one-loop 1/k^2 law with (MZ/M)^2 corrections, the "
